@@ -234,7 +234,9 @@ mod resp {
         // bodies that themselves end in line breaks: the reader must give back exactly these bytes, not a trimmed version
         match rng.below(8) { 0 => body.extend(b"\r\n"), 1 => body.extend(b"\n"), 2 => body.extend(b"\r"), 3 => body.extend(b"\n\r\n\n"), _ => {} }
         let start = rng.below(1000);
-        ContentRange { unit: "bytes".to_string(), range: Range { start, end: start + rng.below(60) }, size: (5000 + rng.below(100)).to_string(), body, content_type: "text/plain".to_string() }
+        // resource sizes beyond 32 bits as well (a part of a file of 2 GiB and more)
+        let size: u64 = match rng.below(6) { 0 => 2147483648, 1 => 4294967296 + rng.below(1000), 2 => 9000000000000000000, _ => 5000 + rng.below(100) };
+        ContentRange { unit: "bytes".to_string(), range: Range { start, end: start + rng.below(60) }, size: size.to_string(), body, content_type: "text/plain".to_string() }
     }
     // independent rendering of the message (RFC 9112 2.1, RFC 9110 14.6)
     pub fn reference(r: &Response, method: &str) -> Vec<u8> {
@@ -475,6 +477,10 @@ mod e2e {
     pub fn corpus() -> Vec<(String, Vec<u8>)> {
         let mut v: Vec<(String, Vec<u8>)> = vec![];
         let mut add = |n: &str, r: String| v.push((n.to_string(), r.into_bytes()));
+        // every protocol version the parser accepts gets a full response (status line, headers)
+        for v in ["HTTP/0.9", "HTTP/1.0", "HTTP/1.1", "HTTP/2.0"] {
+            for t in ["/", "/a.txt", "/missing"] { add(&format!("version {} {}", v, t), format!("GET {} {}\r\nHost: localhost\r\n\r\n", t, v)); }
+        }
         for m in ["GET", "HEAD", "OPTIONS", "POST", "DELETE"] {
             for t in ["/", "/a.txt", "/page", "/dir", "/dir/", "/missing", "/empty", "/a.txt?x=1#f", "/script.js", "/favicon.svg", "/dir/up.txt"] {
                 add(&format!("{} {}", m, t), format!("{} {} HTTP/1.1\r\nHost: localhost\r\n\r\n", m, t));
@@ -554,7 +560,12 @@ mod e2e {
         let mut bad = vec![];
         let out = match run(raw, 0, false) { Ok(o) => o, Err(e) => { bad.push(("c04_panic".to_string(), e)); return bad; } };
         if out.is_empty() { bad.push(("c04_no_response".into(), "nothing written".into())); return bad; }
-        let p = match parse(&out) { Some(p) => p, None => { bad.push(("c05_unparseable".into(), format!("{:?}", String::from_utf8_lossy(&out[..out.len().min(200)])))); return bad; } };
+        let p = match parse(&out) { Some(p) => p, None => {
+            let shown = format!("{:?}", String::from_utf8_lossy(&out[..out.len().min(200)]));
+            bad.push(("c05_unparseable".into(), shown.clone()));
+            // bytes with no status line and header section carry none of the required header fields either
+            bad.push(("c10_once".into(), format!("no header section at all: {}", shown)));
+            return bad; } };
         if !p.head_ok { bad.push(("c05_header_line".into(), format!("malformed header line in {:?}", p.headers))); }
         // C10
         for (n, want) in [("X-Content-Type-Options", Some("nosniff")), ("X-Frame-Options", Some("SAMEORIGIN")), ("Accept-Ranges", Some("bytes")),
